@@ -219,3 +219,45 @@ def s05_mixed_float_equivalence(ctx):
                           'descends into the wrong half' % (bj['def'], line, same[0]), b.file, line)
     r.floor('to_bits equality sites', 6, nbits)
     return r
+
+
+# `skip` is not listed: skipping the newest element when the fold starts from it is a correct micro-optimisation
+TRUNCATING_ADAPTORS = ('take', 'step_by', 'filter', 'filter_map', 'skip_while', 'take_while', 'map_while', 'nth', 'nth_back', 'chunks', 'windows',
+                       'split_at', 'split_first', 'split_last')
+
+
+def s04b_full_window_scans(ctx):
+    """C04: the rescans of the selection methods visit the whole window: an iterator chain that skips, truncates or filters elements cannot
+    compute the extremum / its age over the last `length` inputs."""
+    f = ctx.facts('default')
+    m = Model(f)
+    r = RuleResult('S04b', 'next() of Highest, Lowest, HighestLowestDelta, HighestIndex, LowestIndex scans its window only through complete iterations '
+                           '(no take / take_while / skip_while / filter / step_by ... between window.iter() and the fold)')
+    want = ('Highest', 'Lowest', 'HighestLowestDelta', 'HighestIndex', 'LowestIndex')
+    n = 0
+    for i in m.method_impls:
+        short = m.short(i)
+        if short not in want:
+            continue
+        b = m.body(m.impl_fn_path(i, 'next'))
+        if b is None:
+            raise Broken('no body for %s::next' % short)
+        n += 1
+        key = '%s|next' % short
+        scans = 0
+        bad = []
+        for bi, t in b.calls():
+            nm = t['callee'].get('name') or ''
+            d = callee_def(t['callee']) or ''
+            if d.endswith('Window::<T>::iter') or d.endswith('Window::<T>::iter_rev') or d.endswith('Window::<T>::as_slice'):
+                scans += 1
+            if nm in TRUNCATING_ADAPTORS and ('Iterator' in d or 'slice' in d):
+                bad.append((bi, nm))
+        r.inst(key, scans > 0)
+        if bad:
+            bi, nm = bad[0]
+            r.violate(key + '|partial-scan|' + nm, '%s::next passes its window scan through `%s`: elements of the window are left out of the selection' % (short, nm), b.file, b.term_line(bi))
+        else:
+            r.sample({'method': short, 'window scans in next()': scans, 'truncating adaptors': 0})
+    r.floor('selection methods', 5, n)
+    return r
